@@ -182,6 +182,12 @@ def stepLine (d : D) (line : String) : D × String :=
     match p.toNat? with
     | some p => fin { d with st := disconnect d.st p } "ok"
     | none => fin d "bad-op"
+  | ["wdrain"] =>
+    -- the real task worker drains through Outbox(): same order-independent result as `drain`
+    let (s', acc) := drain cfg d.cmp (totalPending d.st + 1) d.st []
+    let parts := ([0, 1, 2] : List Nat).filterMap fun p =>
+      (find acc p).map fun g => s!"p{p} blocks={showNats g.1} haves={showNats g.2.1} donthaves={showNats g.2.2}"
+    fin { d with st := s' } ("drained " ++ joinWith " ; " parts)
   | ["drain"] =>
     let (s', acc) := drain cfg d.cmp (totalPending d.st + 1) d.st []
     let parts := ([0, 1, 2] : List Nat).filterMap fun p =>
